@@ -45,6 +45,15 @@ func constName(v ssa.Value, names map[string]string) (string, bool) {
 	return n, ok
 }
 
+func isListElemPtr(t types.Type) bool {
+	pt, ok := t.(*types.Pointer)
+	if !ok {
+		return false
+	}
+	nt, ok := pt.Elem().(*types.Named)
+	return ok && nt.Obj().Pkg() != nil && nt.Obj().Pkg().Path() == "container/list" && nt.Obj().Name() == "Element"
+}
+
 func isListPtr(t types.Type) bool {
 	pt, ok := t.(*types.Pointer)
 	if !ok {
@@ -317,13 +326,13 @@ func runC11(p *Prog, l *Ledger) {
 				switch x := r.(type) {
 				case *ssa.TypeAssert:
 					// element.Value.(*queueElement)
-					if !valueDerivesFrom(x.X, usedCall, pa, 6) {
+					if !valueDerivesFrom(x.X, usedCall, pa, 24) {
 						bad = append(bad, "the returned waiter is not the Value of the selected list element")
 					}
 				case *ssa.Call:
 					cc := p.CallOf(x)
 					if cc.Static != nil && len(cc.Args) == 1 {
-						if !valueDerivesFrom(cc.Args[0], usedCall, pa, 6) {
+						if !valueDerivesFrom(cc.Args[0], usedCall, pa, 24) {
 							bad = append(bad, fmt.Sprintf("%s: the eviction function is not built for the selected list element", p.At(x)))
 						}
 					}
@@ -375,14 +384,28 @@ func runC11(p *Prog, l *Ledger) {
 			// removed element is a captured variable / parameter (the element given to the eviction builder)
 			arg := AccessPathThroughClosures(c.Args[0])
 			_, isParam := arg.Root.(*ssa.Parameter)
-			if isParam && len(arg.Sel) > 0 {
-				// a method value of a small carrier struct (&eviction{q, e}).evict: name the element in the frame that built it
+			if !(isParam && len(arg.Sel) == 0) {
+				// a method value of a small carrier struct ((&eviction{q, e}).evict, queueSlot{q, pos}.evict): name the
+				// element in the frame that built the function value. It must be a value fixed there (a parameter, the
+				// element a list call returned), not something looked up when the eviction runs.
 				if frs := p.creationFrames(f); len(frs) > 0 {
+					isParam = true
 					for _, fr := range frs {
 						arg = p.OuterAP(c.Args[0], fr)
-						if _, isParam = arg.Root.(*ssa.Parameter); !isParam || len(arg.Sel) != 0 {
+						fixed := false
+						switch r := arg.Root.(type) {
+						case *ssa.Parameter:
+							fixed = r.Parent() != f
+						case ssa.Instruction:
+							fixed = r.Parent() != f && isListElemPtr(arg.Root.Type())
+						}
+						if !fixed || len(arg.Sel) != 0 {
+							isParam = false
 							break
 						}
+					}
+					if isParam {
+						arg.Sel = nil
 					}
 				}
 			}
@@ -714,6 +737,26 @@ func valueDerivesFrom(v ssa.Value, target ssa.Value, pa *Path, depth int) bool {
 		for _, e := range x.Edges {
 			if valueDerivesFrom(e, target, nil, depth-1) {
 				return true
+			}
+		}
+	case *ssa.Alloc:
+		// a local struct built only to carry values (queueSlot{q, pos}): what was stored into it
+		if refs := x.Referrers(); refs != nil {
+			for _, r := range *refs {
+				switch r := r.(type) {
+				case *ssa.Store:
+					if r.Addr == ssa.Value(x) && valueDerivesFrom(r.Val, target, pa, depth-1) {
+						return true
+					}
+				case *ssa.FieldAddr:
+					if rr := r.Referrers(); rr != nil {
+						for _, u := range *rr {
+							if st, ok := u.(*ssa.Store); ok && st.Addr == ssa.Value(r) && valueDerivesFrom(st.Val, target, pa, depth-1) {
+								return true
+							}
+						}
+					}
+				}
 			}
 		}
 	}
